@@ -183,8 +183,9 @@ def same_failure(f1, f2):
 # --------------------------------------------------------------------------------------
 
 LAYER2_SCRIPT = r"""
-import sys, json, hashlib
-sys.path.insert(0, "/verif")
+import sys, json, hashlib, os
+sys.path.insert(0, os.environ.get("VERIF_ROOT", "/verif"))
+sys.path.insert(0, os.environ.get("VERIF_REPO", "/repo"))
 junk_n = int(sys.argv[2])
 junk = [object() for _ in range(junk_n)]
 import hdl21 as h
@@ -211,7 +212,9 @@ def layer2_run(seeds, hash_seeds, verif_seed=0, timeout=600):
     """Run the same programs in real interpreters (builtin sets, real hashing) with different
     PYTHONHASHSEED values and allocation histories.  Returns (results per interpreter, findings)."""
     procs_ = []
-    env_base = {"PATH": "/usr/bin:/bin", "HOME": "/tmp", "PYTHONDONTWRITEBYTECODE": "1"}
+    from sim import runner
+
+    env_base = {"PATH": "/usr/bin:/bin", "HOME": "/tmp", "PYTHONDONTWRITEBYTECODE": "1", "VERIF_ROOT": runner.ROOT, "VERIF_REPO": os.environ.get("VERIF_REPO", "/repo")}
     for i, hs in enumerate(hash_seeds):
         env = dict(env_base)
         env["PYTHONHASHSEED"] = str(hs)
